@@ -250,6 +250,15 @@ Theorem C01_bs_controller_contract :
 Proof. exact (conj bs_fac_bounds (conj bs_fac_antitone (conj bs_fac_reduces bs_accept_only_below_tolerance))). Qed.
 Print Assumptions C01_bs_controller_contract.
 
+(* BS min_dt / max_dt: the clamp is applied to the step PROPOSED for the next call only (model bs_clamp, bit-exact with the library);
+   the step a call ATTEMPTS is its argument, unclamped -- the callers (BS part2, the user-ODE loop, TRACE's BS modes) advance time by
+   exactly that amount; that "attempted = requested" is tied by the gdb trace (BA/BT records), not a theorem *)
+Theorem C01_bs_step_limits :
+  (forall mn mx d fw, 0 < mn <= mx -> 0 <= d -> mn <= Rabs (bs_clamp RNum mn mx d fw) <= mx)%R /\
+  (forall d fw, 0 <= d -> Rabs (bs_clamp RNum 0 0 d fw) = d)%R.
+Proof. exact (conj bs_clamp_range bs_clamp_off). Qed.
+Print Assumptions C01_bs_step_limits.
+
 (* the controller constants these contracts are stated for are those of the current source *)
 Theorem C01_controller_constants :
   ias15_safety_factor = (1, 4) /\ bs_constants = [(13, 20); (47, 50); (1, 50); (4, 1); (4, 5); (9, 10); (1, 2)].
